@@ -2357,3 +2357,52 @@ def chunk_bounds_validation(P, rep, rule="GRID.bounds"):
                           key="%s|%s" % (rule, label.split(" <")[0].split(" >")[0]), witness=wit)
         else:
             rep.ok(rule, "the checks imply %s" % label, F.nloc(chunk[0][0]), F.qn)
+
+
+def shell_radius_checks(P, rep, rule="GRID.radii"):
+    """the three grids built on a spherical shell agree on the check of its radii"""
+    rep.rule(rule, "gwb-grid: every grid type that names an inner and an outer radius (chunk, annulus, sphere: locals initialised from z_min and "
+                   "z_max) refuses inner >= outer by a release-active check before it divides the shell into layers - the sibling branches "
+                   "agree on their argument checks")
+    F = main_of(P, "gwb-grid")
+    try:
+        zmin, zmax = var_by_name(F, "z_min"), var_by_name(F, "z_max")
+    except AnalysisBroken:
+        raise AnalysisBroken("gwb-grid: z_min / z_max not found")
+    pairs = {}
+    for v in F.walk():
+        if v.get("k") == "VarDecl" and v.get("c"):
+            i0 = sc(v["c"][0])
+            if i0.get("k") == "DeclRefExpr" and i0.get("r") in (zmin, zmax):
+                blk = astq.enclosing(F, v, ("CompoundStmt",))
+                pairs.setdefault(blk["i"], {"blk": blk})["inner" if i0["r"] == zmin else "outer"] = v
+    n = 0
+    for bid, d in sorted(pairs.items()):
+        if "inner" not in d or "outer" not in d:
+            continue
+        n += 1
+        blk = d["blk"]
+        ik, ok_ = d["inner"]["r"], d["outer"]["r"]
+        found = None
+        for g in F.walk(blk):
+            if g.get("k") == "IfStmt" and g.get("m") == "WBAssertThrow" and not g.get("ma"):
+                c = sc(g["c"][0])
+                if c.get("k") == "UnaryOperator" and c.get("op") == "!":
+                    c = sc(c["c"][0])
+                    if c.get("k") == "BinaryOperator" and ((c.get("op") == "<" and astq.is_ref_to(sc(c["c"][0]), ik) and astq.is_ref_to(sc(c["c"][1]), ok_))
+                                                           or (c.get("op") == ">" and astq.is_ref_to(sc(c["c"][0]), ok_) and astq.is_ref_to(sc(c["c"][1]), ik))):
+                        found = g
+        # which grid this is: the nearest enclosing `grid_type == "..."` test
+        label = "?"
+        for a in F.ancestors(blk):
+            if a.get("k") == "IfStmt" and "grid_type" in norm.render(P, a["c"][0]) and any(y is blk for y in F.walk(a["c"][1])):
+                lits = [y.get("v") for y in F.walk(a["c"][0]) if y.get("k") == "StringLiteral"]
+                label = lits[0] if lits else "?"
+                break
+        if found is not None:
+            rep.ok(rule, "%s grid: inner radius < outer radius is checked" % label, F.nloc(found), F.qn)
+        else:
+            rep.violation(rule, "%s grid: no release-active check that the inner radius is below the outer radius" % label, F.nloc(d["inner"]), F.qn,
+                          norm.render(P, d["inner"])[:80], "a shell of zero or negative thickness is meshed (an empty mesh, exit 0) or ends in an allocation error "
+                          "instead of being refused as the chunk grid does", key="%s|%s" % (rule, label), witness="%s grid with z_min = z_max" % label)
+    rep.floor(rule, n, 3, "grid types with an inner and an outer radius")
